@@ -1160,6 +1160,8 @@ pub struct ObjFiber {
     pub(crate) exc_handlers: Vec<ExcHandler>,
     pub(crate) return_ip: Option<*const u8>,
     pub(crate) error_ip: Option<*const u8>,
+    /// An exception is propagating through this fiber's finally blocks.
+    pub(crate) handling_exception: bool,
 }
 
 impl ObjFiber {
@@ -1183,6 +1185,7 @@ impl ObjFiber {
             exc_handlers: Vec::new(),
             return_ip: None,
             error_ip: None,
+            handling_exception: false,
         }
     }
 
